@@ -313,6 +313,18 @@ func resGoType(r Res) reflect.Type {
 }
 
 var structCache = map[string]reflect.Type{}
+
+// typeIdent numbers reflect.Types by identity (call with structCacheMu held).
+var typeIdents = map[reflect.Type]int{}
+
+func typeIdent(t reflect.Type) int {
+	id, ok := typeIdents[t]
+	if !ok {
+		id = len(typeIdents) + 1
+		typeIdents[t] = id
+	}
+	return id
+}
 var structCacheMu sync.Mutex
 
 func structOf(fields []reflect.StructField) reflect.Type {
@@ -323,6 +335,9 @@ func structOf(fields []reflect.StructField) reflect.Type {
 		b.WriteString(f.Name)
 		b.WriteByte('|')
 		b.WriteString(f.Type.String())
+		// distinct types may print identically (types of the same name from different scopes or packages)
+		b.WriteByte('#')
+		b.WriteString(strconv.Itoa(typeIdent(f.Type)))
 		if f.Type.Kind() == reflect.Struct && f.Type.Name() == "" {
 			fmt.Fprintf(&b, "@%p", f.Type)
 		}
@@ -639,6 +654,7 @@ func (w *World) body(m *mat, args []reflect.Value) []reflect.Value {
 	for i, t := range m.outs {
 		outs[i] = reflect.New(t).Elem()
 	}
+	var prevVal reflect.Value
 	for i, r := range f.Results {
 		var v reflect.Value
 		if r.Flatten || r.Whole {
@@ -652,6 +668,9 @@ func (w *World) body(m *mat, args []reflect.Value) []reflect.Value {
 				rec.Toks[i] = append(rec.Toks[i], tk)
 				v = reflect.Append(v, mkVal(r.K.T, tk))
 			}
+		} else if r.Twin && i > 0 && f.Results[i-1].K == r.K && prevVal.IsValid() {
+			rec.Toks[i] = rec.Toks[i-1]
+			v = prevVal
 		} else if r.Nil && r.K.T == tSliceV && r.K.Group != "" {
 			rec.Toks[i] = []*Tok{nil}
 			v = reflect.Zero(typeTab[tSliceV])
@@ -660,6 +679,7 @@ func (w *World) body(m *mat, args []reflect.Value) []reflect.Value {
 			rec.Toks[i] = []*Tok{tk}
 			v = mkVal(r.K.T, tk)
 		}
+		prevVal = v
 		path := m.rPaths[i]
 		walkPath(outs[path[0]], path[1:]).Set(v)
 	}
